@@ -30,7 +30,10 @@ import json,sys
 p,tier,v,sig=sys.argv[1:5]
 try: m=json.load(open(p))
 except Exception: m={}
+old=m.get('detected_by_check') or {}
 m['detected_by_check']={"tier":tier,"verdict":v,"signature":sig}
+if old.get('note') and old.get('verdict')==v:
+    m['detected_by_check']['note']=old['note']
 json.dump(m,open(p,'w'),indent=1)
 PY
 done
